@@ -149,7 +149,7 @@ package vals
 //@   inline
 
 //@ func verifCmp3
-//@   props C09
+//@   props C09 C10
 //@   mode bv
 //@   pure
 //@   nosafety
@@ -175,7 +175,7 @@ package vals
 //@ spec fn issb(x any) bool = istype(x, string) || istype(x, bool)
 
 //@ func verifCmp3s
-//@   props C09
+//@   props C09 C10
 //@   pure
 //@   nosafety
 //@   requires issb(a) && issb(b) && issb(c)
